@@ -49,7 +49,8 @@ theorem contrib_fin_eq_of (env : PrecEnv) (c : Comm) (p : Posting) : contribFin 
   | false => simp
   | true =>
     simp only [if_true]
-    unfold FinX.costOrAmt fp FinX.FPost.ofPosting
+    rw [fp_eq]
+    unfold FinX.costOrAmt
     cases p.amount with
     | none => rfl
     | some a =>
@@ -130,6 +131,105 @@ theorem residual_assert_den (c : Comm) : ∀ (ps : List Posting) (v : Value) (np
         | none =>
           simp only at h
           rw [ih v _ v' np' h hv]; grind
+
+/-! ### the lot a posting with a cost is annotated with: C01/C02 `lotStep` vs C16 `annotateCost` -/
+
+theorem takeWhile_stop {α : Type} (p : α → Bool) (x : α) (hx : p x = false) : ∀ (l r : List α),
+    (∀ y ∈ l, p y = true) → (l ++ x :: r).takeWhile p = l := by
+  intro l
+  induction l with
+  | nil => intro r _; simp [List.takeWhile_cons, hx]
+  | cons y ys ih =>
+    intro r h
+    simp only [List.cons_append, List.takeWhile_cons, h y List.mem_cons_self, if_true]
+    rw [ih r (fun z hz => h z (List.mem_cons_of_mem _ hz))]
+
+/-- C16's encoding `BASE{num/den:COMM}[day]` has base symbol `BASE` -/
+theorem baseComm_lotComm (base : Comm) (price : Amount) (date : Int) (h : plain base = true) :
+    AutoXact.baseComm (AutoXact.lotComm base price date) = base := by
+  unfold AutoXact.baseComm AutoXact.lotComm
+  have e : (base ++ "{" ++ ratStr price.q ++ ":" ++ price.comm ++ "}[" ++ toString date ++ "]").toList
+      = base.toList ++ '{' :: ((ratStr price.q).toList ++ ':' :: (price.comm.toList ++ '}' :: '[' ::
+          ((toString date).toList ++ [']']))) := by
+    simp [String.toList_append]
+  rw [e, takeWhile_stop _ '{' (by simp), String.ofList_toList]
+  intro y hy
+  simp only [decide_eq_true_eq]
+  intro e2
+  subst e2
+  unfold plain at h
+  have : base.toList.contains '{' = true := List.contains_iff_mem.2 hy
+  rw [this] at h; cases h
+
+theorem abs_q_ratAbs (r : Amount) : r.abs.q = AutoXact.ratAbs r.q := by
+  unfold Amount.abs AutoXact.ratAbs
+  split <;> rfl
+
+/-- the per-unit price C16 puts into the lot: `|total cost / quantity|` in the cost's commodity -/
+def autoPrice (env : PrecEnv) (a : Amount) (k : Cost) : Amount :=
+  Amount.mk (AutoXact.ratAbs ((FinX.parseCost env a k).q / a.q)) (FinX.parseCost env a k).prec true
+    (FinX.parseCost env a k).comm
+
+/-- xact.cc 334-343 / pool.cc 263-309 for a posting `a @ k` without lot:
+    C01/C02 (`FinX.lotStep` on the parsed posting) and C16 (`AutoXact.annotateCost`)
+    both keep quantity and total cost, and annotate the amount with a lot whose
+    per-unit price has the same exact quantity `|cost / amount|` and the same
+    commodity, and whose base symbol is the posting's commodity.  (The encodings of
+    the lot differ: `BASE{n/d SYM}[YYYY/MM/DD]()` vs `BASE{n/d:SYM}[day]`; so does the
+    precision counter of the price — C01/C02: that of `amount_t` division, C16: the
+    cost's — which nothing observes: the key carries the exact ratio.) -/
+theorem cost_lot_agree (env : PrecEnv) (ds : String) (day : Int) (p : Posting) (a : Amount) (k : Cost)
+    (ha : p.amount = some a) (hk : p.cost = some k) (hz : a.isZero env = false)
+    (hpa : plain a.comm = true) (hpk : plain k.amt.comm = true) (hne : a.comm ≠ k.amt.comm) :
+    ∃ pu p1 p2,
+      FinX.lotStep env ds (fp env p) = .ok (p1, none) ∧
+      AutoXact.annotateCost env day (AutoXact.toPPost env p) = .ok p2 ∧
+      p1.amount = some { a with comm := FinX.annotate a.comm pu ds } ∧
+      p2.amount = some { a with comm := AutoXact.lotComm a.comm (autoPrice env a k) day } ∧
+      p1.cost = some (FinX.parseCost env a k) ∧ p2.cost = some (FinX.parseCost env a k) ∧
+      pu.q = (autoPrice env a k).q ∧ pu.comm = (autoPrice env a k).comm ∧
+      FinX.lotBase (FinX.annotate a.comm pu ds) = a.comm ∧
+      AutoXact.baseComm (AutoXact.lotComm a.comm (autoPrice env a k) day) = a.comm := by
+  have hcc : (FinX.parseCost env a k).comm = k.amt.comm := by
+    have := congrArg Amount.comm (parseCost_unkeep env a k)
+    simp only at this
+    rw [this, totalCost_comm]
+  cases hdiv : Amount.div env (FinX.parseCost env a k) a with
+  | error e =>
+    unfold Amount.div at hdiv
+    rw [hz] at hdiv
+    simp at hdiv
+  | ok r =>
+    have hrq : r.q = (FinX.parseCost env a k).q / a.q := Amount.div_q hdiv
+    obtain ⟨pu, hpu, hpuq, hpuc⟩ : ∃ pu, FinX.perUnitCost env a (FinX.parseCost env a k) = .ok pu ∧
+        pu.q = r.abs.q ∧ pu.comm = (FinX.decodeLot (FinX.parseCost env a k).comm).1 := by
+      unfold FinX.perUnitCost
+      rw [hz, hdiv]
+      exact ⟨_, rfl, rfl, rfl⟩
+    have h1 : ∃ p1, FinX.lotStep env ds (fp env p) = .ok (p1, none) ∧
+        p1.amount = some { a with comm := FinX.annotate a.comm pu ds } ∧
+        p1.cost = some (FinX.parseCost env a k) := by
+      rw [fp_eq]
+      unfold FinX.lotStep
+      simp only [ha, hk, hpu]
+      exact ⟨_, rfl, rfl, rfl⟩
+    have h2 : ∃ p2, AutoXact.annotateCost env day (AutoXact.toPPost env p) = .ok p2 ∧
+        p2.amount = some { a with comm := AutoXact.lotComm a.comm (autoPrice env a k) day } ∧
+        p2.cost = some (FinX.parseCost env a k) := by
+      unfold AutoXact.toPPost AutoXact.annotateCost
+      simp only [ha, hk]
+      have h1 : AutoXact.hasLot a.comm = false := by rw [hasLot_eq, hpa]; rfl
+      rw [h1]
+      have hne' : ¬ a.comm = (FinX.parseCost env a k).comm := by rw [hcc]; exact hne
+      simp only [Bool.false_eq_true, if_false, hne', hz]
+      exact ⟨_, rfl, rfl, rfl⟩
+    obtain ⟨p1, e1, e2, e3⟩ := h1
+    obtain ⟨p2, f1, f2, f3⟩ := h2
+    refine ⟨pu, p1, p2, e1, f1, e2, f2, e3, f3, ?_, ?_, ?_, ?_⟩
+    · rw [hpuq]; simp only [abs_q_ratAbs, hrq, autoPrice]
+    · rw [hpuc]; simp only [hcc, decodeLot_plain k.amt.comm hpk, autoPrice]
+    · exact lotBase_annotate a.comm _ ds hpa
+    · exact baseComm_lotComm a.comm _ day hpa
 
 end Coh
 end Ledger
